@@ -307,6 +307,45 @@ impl Store {
 }
 
 
+#[cfg(feature = "gohla_pie_verif")]
+impl Store {
+  /// Verification hook: read-only copy of all nodes and edges, in the iteration order of the dependency graph.
+  pub fn verif_dump(&self) -> crate::verif::StoreDump {
+    use crate::verif::{EdgeDump, EdgeKind, NodeDump, NodeKind, StoreDump};
+    let mut ranked: Vec<(u32, Node)> = self.graph.iter_unsorted().collect();
+    ranked.sort_by_key(|(rank, _)| *rank);
+    let index: HashMap<Node, usize> = ranked.iter().enumerate().map(|(i, (_, n))| (*n, i)).collect();
+    let edge = |other: &Node, dependency: &Dependency| -> EdgeDump {
+      let (kind, target, checker, stamp) = match dependency {
+        Dependency::ReservedRequire => (EdgeKind::ReservedRequire, None, None, None),
+        Dependency::Require(d) => (EdgeKind::Require, Some(d.task().to_owned()), Some(d.checker().to_owned()), Some(d.stamp().to_owned())),
+        Dependency::Read(d) => (EdgeKind::Read, Some(d.resource().to_owned()), Some(d.checker().to_owned()), Some(d.stamp().to_owned())),
+        Dependency::Write(d) => (EdgeKind::Write, Some(d.resource().to_owned()), Some(d.checker().to_owned()), Some(d.stamp().to_owned())),
+      };
+      EdgeDump { other: index.get(other).copied(), kind, target, checker, stamp }
+    };
+    let mut nodes = Vec::with_capacity(ranked.len());
+    for (rank, node) in ranked.iter() {
+      let kind = match self.graph.get_node_data(node) {
+        Some(NodeData::Resource(resource)) => NodeKind::Resource(resource.clone()),
+        Some(NodeData::Task { task, output }) => NodeKind::Task { task: task.as_key_obj().to_owned(), output: output.clone() },
+        None => continue,
+      };
+      let outgoing = self.graph.get_outgoing_edges(node).map(|(n, d)| edge(n, d)).collect();
+      let incoming = self.graph.get_incoming_edges(node).map(|(n, d)| edge(n, d)).collect();
+      nodes.push(NodeDump { rank: *rank, kind, outgoing, incoming });
+    }
+    let mut task_map: Vec<(Box<dyn KeyObj>, Option<usize>)> = self.task_to_node.iter()
+      .map(|(t, n)| (t.as_key_obj().to_owned(), index.get(&n.0).copied())).collect();
+    task_map.sort_by_key(|(_, i)| *i);
+    let mut resource_map: Vec<(Box<dyn KeyObj>, Option<usize>)> = self.resource_to_node.iter()
+      .map(|(r, n)| (r.clone(), index.get(&n.0).copied())).collect();
+    resource_map.sort_by_key(|(_, i)| *i);
+    StoreDump { nodes, task_map, resource_map }
+  }
+}
+
+
 #[cfg(test)]
 mod test {
   use std::path::PathBuf;
